@@ -973,3 +973,72 @@ Definition slot_eqb (a b : slot) : bool :=
   optb_eqb (sl_put a) (sl_put b) && optb_eqb (sl_get a) (sl_get b) && list_eqb beq (sl_auth a) (sl_auth b) &&
   list_eqb beq (sl_cookie a) (sl_cookie b) && list_eqb beq (sl_expires a) (sl_expires b).
 Definition slot_c : codec slot := mkcodec (fun _ v => one (slot_tr v)) slot_un slot_eqb.
+
+(* ================= internal/saslerr: Condition, Error (<failure/>) ================= *)
+
+Definition ns_sasl := str "urn:ietf:params:xml:ns:xmpp-sasl".
+
+(* the stringer table of Condition, index = value *)
+Definition sasl_conditions : list bytes :=
+  map str [ "none"; "aborted"; "account-disabled"; "credentials-expired"; "encryption-required";
+            "incorrect-encoding"; "invalid-authzid"; "invalid-mechanism"; "malformed-request";
+            "mechanism-too-weak"; "not-authorized"; "temporary-auth-failure" ]%string.
+
+Definition sasl_count : N := N.of_nat (length sasl_conditions).
+
+(* Condition.TokenReader writes an element for the values strictly between
+   ConditionNone and the length of the table; for ConditionNone and for every
+   value at or beyond the table it writes nothing at all *)
+Definition sasl_name (c : N) : option bytes :=
+  if N.eqb c 0 || (sasl_count <=? c)%N then None else nth_error sasl_conditions (N.to_nat c).
+
+Definition scond_tr (c : N) : list tree :=
+  match sasl_name c with Some n => [Elem (ln n) [] []] | None => [] end.
+
+(* Condition.UnmarshalXML: the first defined condition (ConditionNone excluded)
+   whose name is the element's local name; otherwise the destination is kept *)
+Fixpoint scond_find (s : bytes) (l : list bytes) (i : N) : option N :=
+  match l with [] => None | n :: r => if beq n s then Some i else scond_find s r (i + 1)%N end.
+
+Definition scond_dec (s : bytes) (cur : N) : N :=
+  match scond_find s (tl sasl_conditions) 1 with Some i => i | None => cur end.
+
+Definition scond_un (t : tree) : res N :=
+  match t with Elem n _ _ => Ok (scond_dec (nlocal n) 0) | _ => Err end.
+
+Definition scond_c : codec N := mkcodec (fun _ c => Ok (scond_tr c)) (fun _ => scond_un) N.eqb.
+
+Record saslerr := mksaslerr { se_cond : N; se_lang : bytes; se_text : bytes }.
+
+Definition failure_name := mkname ns_sasl (str "failure").
+
+Definition saslerr_tr (v : saslerr) : tree :=
+  Elem failure_name []
+    (scond_tr (se_cond v) ++
+     (if is_nil (se_text v) then []
+      else [Elem (ln (str "text"))
+              (if is_nil (se_lang v) then [] else [mkattr (mkname xml_ns (str "lang")) (se_lang v)])
+              [Text (se_text v)]])).
+
+Record sasl_raw := mksaslraw { sw_cond : N; sw_texts : list (bytes * bytes) }.
+
+Definition sasl_text_fields : list (Schema.field (bytes * bytes)) :=
+  [ f_str KAttr xml_ns (str "lang") (fun s p => (s, snd p)); f_str KChar [] [] (fun s p => (fst p, s)) ].
+
+Definition saslerr_fields : list (Schema.field sasl_raw) :=
+  [ mkfield KAny [] [] (fun t r => Ok (mksaslraw (scond_dec (nlocal (tree_name t)) (sw_cond r)) (sw_texts r)));
+    f_sub KElem [] (str "text") (unmarshal_struct None sasl_text_fields ([], []))
+      (fun p r => mksaslraw (sw_cond r) (sw_texts r ++ [p])) ].
+
+(* Error.UnmarshalXML into a zero value: the condition, and the first text *)
+Definition saslerr_un (t : tree) : res saslerr :=
+  bind (unmarshal_struct None saslerr_fields (mksaslraw 0 []) t) (fun r =>
+  Ok (match sw_texts r with
+      | [] => mksaslerr (sw_cond r) [] []
+      | (l, d) :: _ => mksaslerr (sw_cond r) l d
+      end)).
+
+Definition saslerr_eqb (a b : saslerr) : bool :=
+  N.eqb (se_cond a) (se_cond b) && beq (se_lang a) (se_lang b) && beq (se_text a) (se_text b).
+
+Definition saslerr_c : codec saslerr := mkcodec (fun _ v => one (saslerr_tr v)) (fun _ => saslerr_un) saslerr_eqb.
